@@ -287,3 +287,42 @@ def run_many(fn, args, lanes=16, timeout=120.0, stop_at=None, progress=None):
             if out[i] is None:
                 out[i] = {"harness_error": "a lane died before this seed was run"}
     return out
+
+
+def call_in_fork(fn, arg):
+    """Run fn(arg) in a forked copy of the current process and return its (pickled) result.
+    Used to keep reference computations from warming process-global state before the simulated execution."""
+    import pickle
+
+    r, w = os.pipe()
+    sys.stdout.flush()
+    sys.stderr.flush()
+    pid = os.fork()
+    if pid == 0:
+        code = 0
+        try:
+            os.close(r)
+            try:
+                res = ("ok", fn(arg))
+            except BaseException as e:  # noqa
+                res = ("exc", "".join(traceback.format_exception(e))[-3000:])
+            _write_all(w, pickle.dumps(res, protocol=pickle.HIGHEST_PROTOCOL))
+        except BaseException:
+            code = 3
+        finally:
+            os._exit(code)
+    os.close(w)
+    buf = bytearray()
+    while True:
+        b = os.read(r, 1 << 20)
+        if not b:
+            break
+        buf += b
+    os.close(r)
+    os.waitpid(pid, 0)
+    if not buf:
+        raise RuntimeError("reference child died without a result")
+    st, val = pickle.loads(bytes(buf))
+    if st != "ok":
+        raise RuntimeError("reference child failed: " + str(val))
+    return val
